@@ -13,8 +13,8 @@
     [isolated Gen.FactsC12.table] from the theorem below (cases file of the
     suite `service`, re-checked by coqc on every run). *)
 From Coq Require Import String Ascii List Bool Arith ZArith.
-From Raven Require Import Base.GoStr Model.Slicers Model.SearchOr Model.Service Spec.NoCrash
-  Proof.Slicers Proof.SearchOr Proof.Service Gen.FactsC12.
+From Raven Require Import Base.GoStr Model.Slicers Model.SearchOr Model.SearchCost Model.UserCreate Model.Service Spec.NoCrash
+  Proof.Slicers Proof.SearchOr Proof.SearchCost Proof.UserCreate Proof.Service Gen.FactsC12.
 Import ListNotations.
 
 (** ================= function layer ================= *)
@@ -92,6 +92,44 @@ Print Assumptions c12_bodystructure_single_total.
 Theorem c12_search_or_total : forall (tokens : list str) (i : nat), no_panic (or_step tokens i).
 Proof. exact or_step_total. Qed.
 Print Assumptions c12_search_or_total.
+
+(** ================= termination and cost ================= *)
+
+(** db.GetOrCreateUserInitialized (LMTP delivery, IMAP LOGIN / AUTHENTICATE): for EVERY users
+    table — rows may exist but be disabled — the function returns within 2 steps of its
+    body (one suffices), ... *)
+Theorem c12_user_creation_terminates : forall (t : list urow) (name : str) (dom : nat),
+  exists t' r, UserCreate.run UserCreate.step 2 t name dom Start = (t', Done r).
+Proof. exact get_or_create_terminates. Qed.
+Print Assumptions c12_user_creation_terminates.
+
+(** ... with "user not found" exactly when the key is taken by a row the lookup does not see *)
+Theorem c12_user_creation_result : forall (t : list urow) (name : str) (dom : nat),
+  snd (UserCreate.step t name dom Start) =
+  match lookup t name dom with
+  | Some id => Done (Found id)
+  | None => if existsb (same_key name dom) t then Done NotFound else Done (Created (fresh_id t))
+  end.
+Proof. exact get_or_create_result. Qed.
+Print Assumptions c12_user_creation_result.
+
+(** a variant whose conflict branch starts the function over never returns on such a table
+    (the seeded change C12-3; regression [Example restart_variant_spins] in Proof/UserCreate.v) *)
+Theorem c12_user_creation_restart_diverges : forall (t : list urow) (name : str) (dom : nat),
+  shadowed t name dom -> forall fuel, UserCreate.run UserCreate.step_restart fuel t name dom Start = (t, Start).
+Proof. exact restart_never_returns. Qed.
+Print Assumptions c12_user_creation_restart_diverges.
+
+(** SEARCH: the table of key lengths of fix c12-8 (filled once, from the last token to the
+    first) holds at every position what the recursive searchKeyLength computed — the fix
+    changes no result — and costs one step per token *)
+Theorem c12_search_key_lengths_correct : forall (l : list kind) (i : nat), nth i (lens l) 1 = klen (skipn i l).
+Proof. exact lens_correct. Qed.
+Print Assumptions c12_search_key_lengths_correct.
+
+Theorem c12_search_key_lengths_linear : forall l : list kind, length (lens l) = length l /\ new_cost l <= 3 * length l.
+Proof. exact (fun l => conj (lens_length l) (new_cost_linear l)). Qed.
+Print Assumptions c12_search_key_lengths_linear.
 
 (** ================= service layer ================= *)
 
